@@ -185,7 +185,12 @@ def settle : Nat → St → St
     | [] => st
     | i :: rest => settle fuel (runReq 64 { st with ready := rest } i)
 
-def settleFuel : Nat := 4096
+/-- enough task runs for the loop to come to rest (`Proofs/HostRest.lean`: every run of a ready task either changes
+    nothing or uses up one of the at most six steps a request can take before it blocks, and wakes at most three tasks) -/
+def settleFuel (st : St) : Nat := 24 * st.reqs.length + st.ready.length
+
+/-- run the ready tasks until the loop is at rest -/
+def settleAll (st : St) : St := settle (settleFuel st) st
 
 inductive Ev where
   | start (id key : Nat) (blocking : Bool) (nfrags timeout : Nat)
@@ -210,23 +215,23 @@ def step (st0 : St) (e : Ev) : St :=
     if !st.isOpen then emit st (.done id .runtimeError) else
     let st := { st with reqs := st.reqs ++ [{ id, key, blocking, nfrags, timeout }],
                         listeners := st.listeners ++ [(id, key)], ready := st.ready ++ [id] }
-    settle settleFuel st
+    settleAll st
   | .rxAck k =>
     if k = st.pack then
       let woken := (st.reqs.filter (·.phase == .waitAck)).map (·.id)
       let st := { st with pack := st.pack % 3 + 1,
                           reqs := st.reqs.map fun r => if r.phase == .waitAck then { r with phase := .acked } else r,
                           ready := st.ready ++ woken }
-      settle settleFuel st
-    else settle settleFuel st
+      settleAll st
+    else settleAll st
   | .rxRsp key =>
     let st := if st.transport then emit st .wack else st
     match st.listeners.find? (fun l => l.2 == key) with
-    | none => settle settleFuel st
+    | none => settleAll st
     | some (i, _) =>
       let waiting := (getReq st i).map (·.phase == .waitRsp) |>.getD false
       let st := updReq { st with listeners := st.listeners.filter (·.1 != i) } i fun r => { r with got := .rsp }
-      settle settleFuel (if waiting then { st with ready := st.ready ++ [i] } else st)
+      settleAll (if waiting then { st with ready := st.ready ++ [i] } else st)
   | .tick =>
     match nextDeadline st with
     | none => st
@@ -240,27 +245,27 @@ def step (st0 : St) (e : Ev) : St :=
       -- response waits that expired raise TimeoutError out of the request
       let expiredRsp := (st.reqs.filter fun (r : Req) => r.phase == Phase.waitRsp && r.deadline ≤ st.now && r.got == Got.nothing).map (·.id)
       let st := expiredRsp.foldl (fun s i => unwind s i .timeoutError) st
-      settle settleFuel st
+      settleAll st
   | .cancel id =>
     match getReq st id with
     | none => st
-    | some r => if r.phase == .done then st else settle settleFuel (unwind st id .cancelled)
+    | some r => if r.phase == .done then st else settleAll (unwind st id .cancelled)
   | .close =>
     if st.resetting then
       -- listeners are kept while a reset is in progress; only the uart is closed
       let st := if st.isOpen then { (emit st .closeOut) with transport := false, pack := 0, isOpen := false } else st
-      settle settleFuel st
+      settleAll st
     else
       let waiting := (st.listeners.filter fun l => ((getReq st l.1).map (·.phase == .waitRsp)).getD false).map (·.1)
       let ids := st.listeners.map (·.1)
       let st := { st with reqs := st.reqs.map fun r => if ids.contains r.id then { r with got := .cancelled } else r,
                           listeners := [], ready := st.ready ++ waiting }
       let st := if st.isOpen then { (emit st .closeOut) with transport := false, pack := 0, isOpen := false } else st
-      settle settleFuel st
+      settleAll st
   | .lost =>
     let st := { st with isOpen := false }
     let st := if st.resetting then st else emit st .appLost
-    settle settleFuel st
+    settleAll st
   | .setReset b => { st with resetting := b }
 
 def runEvents (st : St) (evs : List Ev) : St × List (List Out) :=
